@@ -233,6 +233,26 @@ type jw struct {
 	cof       bool          // a failing call cancels the subscriber's own context, as net/http does on a write error
 	gate      chan struct{} // when set, the first Send blocks until the driver releases it (a slow client)
 	entered   chan struct{}
+	err       error // what a failing call returns (errW when nil)
+}
+
+// writerErr is the error a subscriber's failing Send / Flush returns: for some subscribers an error that wraps a context error
+// (a writer bound to a request that went away) although the subscriber's own context is alive - an error like any other.
+func writerErr(seed int64, i int) error {
+	switch (seed + int64(i)*3) % 7 {
+	case 2:
+		return fmt.Errorf("write on a connection that went away: %w", context.Canceled)
+	case 5:
+		return fmt.Errorf("write deadline of the connection: %w", context.DeadlineExceeded)
+	}
+	return errW
+}
+
+func (w *jw) fail() error {
+	if w.err != nil {
+		return w.err
+	}
+	return errW
 }
 
 func (w *jw) Send(m *sse.Message) error {
@@ -248,7 +268,7 @@ func (w *jw) Send(m *sse.Message) error {
 			w.t.log(jev{"e": "cancel", "s": w.id})
 			w.cancel()
 		}
-		return errW
+		return w.fail()
 	}
 	return nil
 }
@@ -262,7 +282,7 @@ func (w *jw) Flush() error {
 			w.t.log(jev{"e": "cancel", "s": w.id})
 			w.cancel()
 		}
-		return errW
+		return w.fail()
 	}
 	return nil
 }
@@ -524,7 +544,7 @@ func runScenario(seed int64, focus string) (evs []jev, blocked bool, dump string
 		ctx, cancel := context.WithCancel(context.Background())
 		cancels[i] = cancel
 		id := "s" + strconv.Itoa(i)
-		w := &jw{t: t, id: id, cancel: cancel}
+		w := &jw{t: t, id: id, cancel: cancel, err: writerErr(seed, i)}
 		pf := 3
 		if focus == "faults" {
 			pf = 2
